@@ -105,6 +105,7 @@ structure St where
   lastCons : List (Nat × String) := []     -- lastConsensusEvents
   lowerBound : Option Int := none          -- roundLowerBound
   topo : Nat := 0                          -- topologicalIndex counter
+  pendingLoaded : Int := 0                 -- PendingLoadedEvents: loaded events inserted and not yet in a processed frame
 deriving Inhabited
 
 /-! ## small helpers -/
@@ -304,9 +305,13 @@ def St.admission (s : St) (e : Ev) : Option Rej :=
               if e.op != "" && (s.get e.op).isNone then some .otherParent else
               if e.index != l.index + 1 then some .index else none
 
+/-- `Event.IsLoaded`: a first event, or one that carries transactions or internal transactions -/
+def Ev.isLoaded (e : Ev) : Bool := e.index == 0 || !e.txs.isEmpty || !e.itx.isEmpty
+
 def St.insert (s : St) (e : Ev) : St :=
   let s2 := s.insertCoords e
-  { s2 with undet := s2.undet ++ [e.id], topo := s2.topo + 1 }
+  { s2 with undet := s2.undet ++ [e.id], topo := s2.topo + 1,
+            pendingLoaded := s2.pendingLoaded + (if e.isLoaded then 1 else 0) }
 
 /-! ## DivideRounds -/
 
@@ -553,7 +558,10 @@ def St.addBlock (s : St) (b : Block) : St :=
 
 def St.addFrame (s : St) (frame : Frame) (sorted : List Ev) : St :=
   { s with frames := s.frames ++ [frame],
-           lastCons := if Gen.cmpFrameNonEmpty.evalN sorted.length 0 then sorted.foldl setLastCons s.lastCons else s.lastCons }
+           lastCons := if Gen.cmpFrameNonEmpty.evalN sorted.length 0 then sorted.foldl setLastCons s.lastCons else s.lastCons,
+           -- the loaded events of a processed frame are no longer pending
+           pendingLoaded := if Gen.cmpFrameNonEmpty.evalN sorted.length 0 then s.pendingLoaded - (sorted.filter Ev.isLoaded).length
+                            else s.pendingLoaded }
 
 def St.popPending (s : St) (r : Int) (rest : List (Int × Bool)) : St :=
   { s with pending := rest,
